@@ -1128,7 +1128,7 @@ fn c01_closures(k: usize) {
 pub fn harnesses_c17() -> Vec<HarnessDef> {
   vec![
     HarnessDef { id: "c01_closures", props: vec!["C01"], about: "closure-level subscriber (on_complete + on_error + subscribe(next)) below every unary operator: next*, then at most one of the completion / error callbacks, then nothing; vs the list oracle", bounds: |t| format!("{} arbitrary events incl. post-terminal", if t { 5 } else { 4 }), f: Box::new(|t| c01_closures(if t { 5 } else { 4 })), budget_quick: 1_000_000, budget_thorough: 20_000_000, thorough_only: false, sampled: true },
-    HarnessDef { id: "c17_composite", props: vec!["C17"], about: "MultiSubscription: histories of append / unsubscribe (through a clone) / is_closed / retain / child finishes: late additions torn down at once, closed => every child closed, closed is monotone once unsubscribed", bounds: |t| format!("{} operations, 3 children", if t { 7 } else { 5 }), f: Box::new(|t| c17_composite(false, if t { 7 } else { 5 })), budget_quick: 1_000_000, budget_thorough: 20_000_000, thorough_only: false, sampled: true },
-    HarnessDef { id: "c17_composite_threads", props: vec!["C17"], about: "MultiSubscriptionThreads, same histories", bounds: |t| format!("{} operations, 3 children", if t { 7 } else { 5 }), f: Box::new(|t| c17_composite(true, if t { 7 } else { 5 })), budget_quick: 1_000_000, budget_thorough: 20_000_000, thorough_only: false, sampled: true },
+    HarnessDef { id: "c17_composite", props: vec!["C17", "C15"], about: "MultiSubscription: histories of append / unsubscribe (through a clone) / is_closed / retain / child finishes: late additions torn down at once, closed => every child closed, closed is monotone once unsubscribed", bounds: |t| format!("{} operations, 3 children", if t { 7 } else { 5 }), f: Box::new(|t| c17_composite(false, if t { 7 } else { 5 })), budget_quick: 1_000_000, budget_thorough: 20_000_000, thorough_only: false, sampled: true },
+    HarnessDef { id: "c17_composite_threads", props: vec!["C17", "C15"], about: "MultiSubscriptionThreads, same histories", bounds: |t| format!("{} operations, 3 children", if t { 7 } else { 5 }), f: Box::new(|t| c17_composite(true, if t { 7 } else { 5 })), budget_quick: 1_000_000, budget_thorough: 20_000_000, thorough_only: false, sampled: true },
   ]
 }
